@@ -23,7 +23,7 @@ from .core import ChoiceStream, EventLog, Violation, Inconclusive, seed_for
 
 VERIF = Path(__file__).resolve().parent.parent
 OUT = VERIF / "out"
-EVID = VERIF / "evidence"
+EVID = Path(os.environ.get("VERIF_EVIDENCE_DIR", str(VERIF / "evidence")))   # development sweeps write elsewhere
 
 ENGINES = {
     "C12": "hysim.engines.c12_vectors",
